@@ -26,7 +26,13 @@ slips, nil vs empty, comparators, map order, early returns) and asked for classe
 (constructors, options, modes, alternative entry points, optional members) and a mistake on a route an ordinary test is least likely to travel; round 7 (`r7`) asked for
 changes outside the anchored files (helper packages, option plumbing) whose violation needs two independent ordinary conditions to coincide; round 8 (`r8`) asked the agent to imagine a model-based test harness
 for the property and to hide the change in one of its likely blind spots (unmodelled result members, list order, Go / JSON types, echoed values, side effects on
-arguments, long histories, operations after refused or degraded ones, permissive and restrictive configurations, second calls). `/verif/regress_seeded.sh` re-applies every kept
+arguments, long histories, operations after refused or degraded ones, permissive and restrictive configurations, second calls); round 9 (`r9`) asked for clean-up commits
+("remove redundant check", "use the stdlib helper", "drop the defensive copy", "merge duplicate paths") where the removed code was not redundant after all; round 10 (`r10`) asked for
+well-meant additions (caches and fast paths, tolerances and fall-backs, new options and supported values, extra limits, logging) that leave every existing check in place. Two round-9 proposals for C20 were confirmed but not kept, because they
+manifest only when two concurrent calls share an input object (one version list handed to several `verprovider.New` calls, documents sharing
+the backing array of a relationship list) and the statement speaks of concurrent calls on distinct inputs; a trial version of the
+check that shared such inputs also showed that the unchanged tree is not race-free then (a third-party BLS library normalises the
+caller's key object in place while serializing it), which is outside the statement for the same reason. `/verif/regress_seeded.sh` re-applies every kept
 change and re-runs the quick tier of its property, so a later edit of a check cannot silently lose one.
 
 **%d changes kept; %d were missed at first and led to a stronger check** (all are caught now):
